@@ -12,7 +12,7 @@ def four (t : T α) : Bool := isRed (left t) && isRed (right t)
 
 /-- result classes of `put_obj` on a subtree `tin` whose root colour is `cin` -/
 inductive PutPost : (tin : T α) → (cin : Bool) → T α → Nat → Prop
-  | blackStays {t t' n} : t ≠ nil → four t = false → Bal t' false n → PutPost t false t' n
+  | blackStays {t t' n} : four t = false → Bal t' false n → PutPost t false t' n
   | fromNil {t t' n} : t = nil → Bal t' true n → PutPost t false t' n
   | fromFour {t t' n} : four t = true → Bal t' true n → PutPost t false t' n
   | redOk {t t' n} : Bal t' true n → PutPost t true t' n
@@ -82,45 +82,50 @@ theorem four_blacken {t : T α} {n} (h : Bal t true n) : four (blacken t) = fals
   | red hl hr => have := hl.isRed_eq; simp [four, this]
 
 section
-variable {K : Type} (cmp : K → K → Ordering) (key : α → K) (new : α) (onDup : α → α)
+variable {K : Type} (cmp : K → K → Ordering) (key : α → K) (k : K) (mk : Option α) (onDup : α → α)
 
-theorem put_nil (fuel : Nat) : put cmp key new onDup (fuel + 1) (nil : T α) = .ok (node nil new true nil, true) := by
+theorem put_nil_some (fuel : Nat) (new : α) :
+    put cmp key k (some new) onDup (fuel + 1) (nil : T α) = .ok (node nil new true nil, true) := by
+  simp [put]
+
+theorem put_nil_none (fuel : Nat) :
+    put cmp key k none onDup (fuel + 1) (nil : T α) = .ok (nil, false) := by
   simp [put]
 
 /-- `put_obj` on a node that is not a 4-node -/
 theorem put_ns_eq (fuel : Nat) (l : T α) (a c r) (h : (isRed l && isRed r) = false)
-    (hc : cmp (key new) (key a) = .eq) :
-    put cmp key new onDup (fuel + 1) (node l a c r) =
+    (hc : cmp k (key a) = .eq) :
+    put cmp key k mk onDup (fuel + 1) (node l a c r) =
       (putUp (node l (onDup a) c r) >>= fun t => .ok (t, false)) := by
   simp [put, splitFour, h, hc]
 
 theorem put_ns_lt (fuel : Nat) (l : T α) (a c r) (h : (isRed l && isRed r) = false)
-    (hc : cmp (key new) (key a) = .lt) :
-    put cmp key new onDup (fuel + 1) (node l a c r) =
-      (put cmp key new onDup fuel l >>= fun p => putUp (node p.1 a c r) >>= fun t => .ok (t, p.2)) := by
+    (hc : cmp k (key a) = .lt) :
+    put cmp key k mk onDup (fuel + 1) (node l a c r) =
+      (put cmp key k mk onDup fuel l >>= fun p => putUp (node p.1 a c r) >>= fun t => .ok (t, p.2)) := by
   simp [put, splitFour, h, hc]
 
 theorem put_ns_gt (fuel : Nat) (l : T α) (a c r) (h : (isRed l && isRed r) = false)
-    (hc : cmp (key new) (key a) = .gt) :
-    put cmp key new onDup (fuel + 1) (node l a c r) =
-      (put cmp key new onDup fuel r >>= fun p => putUp (node l a c p.1) >>= fun t => .ok (t, p.2)) := by
+    (hc : cmp k (key a) = .gt) :
+    put cmp key k mk onDup (fuel + 1) (node l a c r) =
+      (put cmp key k mk onDup fuel r >>= fun p => putUp (node l a c p.1) >>= fun t => .ok (t, p.2)) := by
   simp [put, splitFour, h, hc]
 
 /-- `put_obj` on a 4-node: the colours are flipped on the way down -/
-theorem put_sp_eq (fuel : Nat) (ll : T α) (la lr a c rl ra rr) (hc : cmp (key new) (key a) = .eq) :
-    put cmp key new onDup (fuel + 1) (node (node ll la true lr) a c (node rl ra true rr)) =
+theorem put_sp_eq (fuel : Nat) (ll : T α) (la lr a c rl ra rr) (hc : cmp k (key a) = .eq) :
+    put cmp key k mk onDup (fuel + 1) (node (node ll la true lr) a c (node rl ra true rr)) =
       (putUp (node (node ll la false lr) (onDup a) (!c) (node rl ra false rr)) >>= fun t => .ok (t, false)) := by
   simp [put, splitFour, hc]
 
-theorem put_sp_lt (fuel : Nat) (ll : T α) (la lr a c rl ra rr) (hc : cmp (key new) (key a) = .lt) :
-    put cmp key new onDup (fuel + 1) (node (node ll la true lr) a c (node rl ra true rr)) =
-      (put cmp key new onDup fuel (node ll la false lr) >>= fun p =>
+theorem put_sp_lt (fuel : Nat) (ll : T α) (la lr a c rl ra rr) (hc : cmp k (key a) = .lt) :
+    put cmp key k mk onDup (fuel + 1) (node (node ll la true lr) a c (node rl ra true rr)) =
+      (put cmp key k mk onDup fuel (node ll la false lr) >>= fun p =>
          putUp (node p.1 a (!c) (node rl ra false rr)) >>= fun t => .ok (t, p.2)) := by
   simp [put, splitFour, hc]
 
-theorem put_sp_gt (fuel : Nat) (ll : T α) (la lr a c rl ra rr) (hc : cmp (key new) (key a) = .gt) :
-    put cmp key new onDup (fuel + 1) (node (node ll la true lr) a c (node rl ra true rr)) =
-      (put cmp key new onDup fuel (node rl ra false rr) >>= fun p =>
+theorem put_sp_gt (fuel : Nat) (ll : T α) (la lr a c rl ra rr) (hc : cmp k (key a) = .gt) :
+    put cmp key k mk onDup (fuel + 1) (node (node ll la true lr) a c (node rl ra true rr)) =
+      (put cmp key k mk onDup fuel (node rl ra false rr) >>= fun p =>
          putUp (node (node ll la false lr) a (!c) p.1) >>= fun t => .ok (t, p.2)) := by
   simp [put, splitFour, hc]
 
@@ -132,38 +137,41 @@ theorem fin {x : Except Fault (T α)} {b : Bool} {tin : T α} {cin : Bool} {n : 
   exact ⟨t', b, by simp [hx], k t' hp⟩
 
 theorem put_post : ∀ (fuel : Nat) (t : T α) (c : Bool) (n : Nat), size t < fuel → Bal t c n →
-    ∃ t' added, put cmp key new onDup fuel t = .ok (t', added) ∧ PutPost t c t' n := by
+    ∃ t' added, put cmp key k mk onDup fuel t = .ok (t', added) ∧ PutPost t c t' n := by
   intro fuel
   induction fuel with
   | zero => intro t c n h; omega
   | succ fuel ih =>
     intro t c n hsz hb
     cases hb with
-    | nil => exact ⟨_, _, put_nil cmp key new onDup fuel, .fromNil rfl (.red .nil .nil)⟩
+    | nil =>
+      cases mk with
+      | some new => exact ⟨_, _, put_nil_some cmp key k onDup fuel new, .fromNil rfl (.red .nil .nil)⟩
+      | none => exact ⟨_, _, put_nil_none cmp key k onDup fuel, .blackStays (by simp [four]) .nil⟩
     | @red l r a n hl hr =>
       have e1 := hl.isRed_eq; have e2 := hr.isRed_eq
       have hszl : size l < fuel := by simp at hsz; omega
       have hszr : size r < fuel := by simp at hsz; omega
       have hns : (isRed l && isRed r) = false := by simp [e1]
-      cases hc : cmp (key new) (key a) with
+      cases hc : cmp k (key a) with
       | eq =>
-        rw [put_ns_eq cmp key new onDup fuel l a true r hns hc]
+        rw [put_ns_eq cmp key k mk onDup fuel l a true r hns hc]
         obtain ⟨t', h1, h2⟩ := putUp_red_ok (a := onDup a) hl hr
         exact ⟨t', false, by simp [h1], .redOk h2⟩
       | lt =>
-        rw [put_ns_lt cmp key new onDup fuel l a true r hns hc]
+        rw [put_ns_lt cmp key k mk onDup fuel l a true r hns hc]
         obtain ⟨l2, ad, h1, h2⟩ := ih l false n hszl hl
         simp only [h1, ok_bind]
         cases h2 with
-        | blackStays _ _ hb2 => exact fin (putUp_red_ok (a := a) hb2 hr) (fun _ h4 => .redOk h4)
+        | blackStays _ hb2 => exact fin (putUp_red_ok (a := a) hb2 hr) (fun _ h4 => .redOk h4)
         | fromNil _ hb2 => exact fin (putUp_red_leftRed (a := a) hb2 hr) (fun _ h4 => .redInfra h4)
         | fromFour _ hb2 => exact fin (putUp_red_leftRed (a := a) hb2 hr) (fun _ h4 => .redInfra h4)
       | gt =>
-        rw [put_ns_gt cmp key new onDup fuel l a true r hns hc]
+        rw [put_ns_gt cmp key k mk onDup fuel l a true r hns hc]
         obtain ⟨r2, ad, h1, h2⟩ := ih r false n hszr hr
         simp only [h1, ok_bind]
         cases h2 with
-        | blackStays _ _ hb2 => exact fin (putUp_red_ok (a := a) hl hb2) (fun _ h4 => .redOk h4)
+        | blackStays _ hb2 => exact fin (putUp_red_ok (a := a) hl hb2) (fun _ h4 => .redOk h4)
         | fromNil _ hb2 => exact fin (putUp_red_rightRed (a := a) hl hb2) (fun _ h4 => .redInfra h4)
         | fromFour _ hb2 => exact fin (putUp_red_rightRed (a := a) hl hb2) (fun _ h4 => .redInfra h4)
     | @black l r a cl cr m hl hr hlean =>
@@ -175,51 +183,51 @@ theorem put_post : ∀ (fuel : Nat) (t : T α) (c : Bool) (n : Nat), size t < fu
       · -- 2-node
         have hf : four (node l a false r) = false := by simp [four, e1]
         have hns : (isRed l && isRed r) = false := by simp [e1]
-        cases hc : cmp (key new) (key a) with
+        cases hc : cmp k (key a) with
         | eq =>
-          rw [put_ns_eq cmp key new onDup fuel l a false r hns hc]
+          rw [put_ns_eq cmp key k mk onDup fuel l a false r hns hc]
           obtain ⟨t', h1, h2⟩ := putUp_black_ok (a := onDup a) hl hr (by simp)
-          exact ⟨t', false, by simp [h1], .blackStays hne hf h2⟩
+          exact ⟨t', false, by simp [h1], .blackStays hf h2⟩
         | lt =>
-          rw [put_ns_lt cmp key new onDup fuel l a false r hns hc]
+          rw [put_ns_lt cmp key k mk onDup fuel l a false r hns hc]
           obtain ⟨l2, ad, h1, h2⟩ := ih l false m hszl hl
           simp only [h1, ok_bind]
           cases h2 with
-          | blackStays _ _ hb2 => exact fin (putUp_black_ok (a := a) hb2 hr (by simp)) (fun _ h4 => .blackStays hne hf h4)
-          | fromNil _ hb2 => exact fin (putUp_black_ok (a := a) hb2 hr (by simp)) (fun _ h4 => .blackStays hne hf h4)
-          | fromFour _ hb2 => exact fin (putUp_black_ok (a := a) hb2 hr (by simp)) (fun _ h4 => .blackStays hne hf h4)
+          | blackStays _ hb2 => exact fin (putUp_black_ok (a := a) hb2 hr (by simp)) (fun _ h4 => .blackStays hf h4)
+          | fromNil _ hb2 => exact fin (putUp_black_ok (a := a) hb2 hr (by simp)) (fun _ h4 => .blackStays hf h4)
+          | fromFour _ hb2 => exact fin (putUp_black_ok (a := a) hb2 hr (by simp)) (fun _ h4 => .blackStays hf h4)
         | gt =>
-          rw [put_ns_gt cmp key new onDup fuel l a false r hns hc]
+          rw [put_ns_gt cmp key k mk onDup fuel l a false r hns hc]
           obtain ⟨r2, ad, h1, h2⟩ := ih r false m hszr hr
           simp only [h1, ok_bind]
           cases h2 with
-          | blackStays _ _ hb2 => exact fin (putUp_black_ok (a := a) hl hb2 (by simp)) (fun _ h4 => .blackStays hne hf h4)
-          | fromNil _ hb2 => exact fin (putUp_black_rightRed (a := a) hl hb2) (fun _ h4 => .blackStays hne hf h4)
-          | fromFour _ hb2 => exact fin (putUp_black_rightRed (a := a) hl hb2) (fun _ h4 => .blackStays hne hf h4)
+          | blackStays _ hb2 => exact fin (putUp_black_ok (a := a) hl hb2 (by simp)) (fun _ h4 => .blackStays hf h4)
+          | fromNil _ hb2 => exact fin (putUp_black_rightRed (a := a) hl hb2) (fun _ h4 => .blackStays hf h4)
+          | fromFour _ hb2 => exact fin (putUp_black_rightRed (a := a) hl hb2) (fun _ h4 => .blackStays hf h4)
       · simp at hlean
       · -- 3-node (left red)
         have hf : four (node l a false r) = false := by simp [four, e2]
         have hns : (isRed l && isRed r) = false := by simp [e2]
-        cases hc : cmp (key new) (key a) with
+        cases hc : cmp k (key a) with
         | eq =>
-          rw [put_ns_eq cmp key new onDup fuel l a false r hns hc]
+          rw [put_ns_eq cmp key k mk onDup fuel l a false r hns hc]
           obtain ⟨t', h1, h2⟩ := putUp_black_ok (a := onDup a) hl hr (by simp)
-          exact ⟨t', false, by simp [h1], .blackStays hne hf h2⟩
+          exact ⟨t', false, by simp [h1], .blackStays hf h2⟩
         | lt =>
-          rw [put_ns_lt cmp key new onDup fuel l a false r hns hc]
+          rw [put_ns_lt cmp key k mk onDup fuel l a false r hns hc]
           obtain ⟨l2, ad, h1, h2⟩ := ih l true m hszl hl
           simp only [h1, ok_bind]
           cases h2 with
-          | redOk hb2 => exact fin (putUp_black_ok (a := a) hb2 hr (by simp)) (fun _ h4 => .blackStays hne hf h4)
-          | redInfra hb2 => exact fin (putUp_black_infra (a := a) hb2 hr) (fun _ h4 => .blackStays hne hf h4)
+          | redOk hb2 => exact fin (putUp_black_ok (a := a) hb2 hr (by simp)) (fun _ h4 => .blackStays hf h4)
+          | redInfra hb2 => exact fin (putUp_black_infra (a := a) hb2 hr) (fun _ h4 => .blackStays hf h4)
         | gt =>
-          rw [put_ns_gt cmp key new onDup fuel l a false r hns hc]
+          rw [put_ns_gt cmp key k mk onDup fuel l a false r hns hc]
           obtain ⟨r2, ad, h1, h2⟩ := ih r false m hszr hr
           simp only [h1, ok_bind]
           cases h2 with
-          | blackStays _ _ hb2 => exact fin (putUp_black_ok (a := a) hl hb2 (by simp)) (fun _ h4 => .blackStays hne hf h4)
-          | fromNil _ hb2 => exact fin (putUp_black_ok (a := a) hl hb2 (by simp)) (fun _ h4 => .blackStays hne hf h4)
-          | fromFour _ hb2 => exact fin (putUp_black_ok (a := a) hl hb2 (by simp)) (fun _ h4 => .blackStays hne hf h4)
+          | blackStays _ hb2 => exact fin (putUp_black_ok (a := a) hl hb2 (by simp)) (fun _ h4 => .blackStays hf h4)
+          | fromNil _ hb2 => exact fin (putUp_black_ok (a := a) hl hb2 (by simp)) (fun _ h4 => .blackStays hf h4)
+          | fromFour _ hb2 => exact fin (putUp_black_ok (a := a) hl hb2 (by simp)) (fun _ h4 => .blackStays hf h4)
       · -- 4-node: split on the way down
         cases hl with
         | @red ll lr la _ hll hlr =>
@@ -228,27 +236,27 @@ theorem put_post : ∀ (fuel : Nat) (t : T α) (c : Bool) (n : Nat), size t < fu
         have hf : four (node (node ll la true lr) a false (node rl ra true rr)) = true := by simp [four]
         have hbl : Bal (node ll la false lr) false (m + 1) := Bal.black hll hlr (by simp)
         have hbr : Bal (node rl ra false rr) false (m + 1) := Bal.black hrl hrr (by simp)
-        cases hc : cmp (key new) (key a) with
+        cases hc : cmp k (key a) with
         | eq =>
-          rw [put_sp_eq cmp key new onDup fuel _ _ _ _ _ _ _ _ hc]
+          rw [put_sp_eq cmp key k mk onDup fuel _ _ _ _ _ _ _ _ hc]
           obtain ⟨t', h1, h2⟩ := putUp_red_ok (a := onDup a) hbl hbr
           exact ⟨t', false, by simp [h1], .fromFour hf h2⟩
         | lt =>
-          rw [put_sp_lt cmp key new onDup fuel _ _ _ _ _ _ _ _ hc]
+          rw [put_sp_lt cmp key k mk onDup fuel _ _ _ _ _ _ _ _ hc]
           obtain ⟨l2, ad, h1, h2⟩ := ih (node ll la false lr) false (m + 1) (by simpa using hszl) hbl
           simp only [h1, ok_bind, Bool.not_false]
           cases h2 with
-          | blackStays _ _ hb2 => exact fin (putUp_red_ok (a := a) hb2 hbr) (fun _ h4 => .fromFour hf h4)
+          | blackStays _ hb2 => exact fin (putUp_red_ok (a := a) hb2 hbr) (fun _ h4 => .fromFour hf h4)
           | fromNil hn _ => simp at hn
           | fromFour hf' _ =>
             have e3 := hll.isRed_eq
             simp [four, e3] at hf'
         | gt =>
-          rw [put_sp_gt cmp key new onDup fuel _ _ _ _ _ _ _ _ hc]
+          rw [put_sp_gt cmp key k mk onDup fuel _ _ _ _ _ _ _ _ hc]
           obtain ⟨r2, ad, h1, h2⟩ := ih (node rl ra false rr) false (m + 1) (by simpa using hszr) hbr
           simp only [h1, ok_bind, Bool.not_false]
           cases h2 with
-          | blackStays _ _ hb2 => exact fin (putUp_red_ok (a := a) hbl hb2) (fun _ h4 => .fromFour hf h4)
+          | blackStays _ hb2 => exact fin (putUp_red_ok (a := a) hbl hb2) (fun _ h4 => .fromFour hf h4)
           | fromNil hn _ => simp at hn
           | fromFour hf' _ =>
             have e3 := hrl.isRed_eq
@@ -256,12 +264,12 @@ theorem put_post : ∀ (fuel : Nat) (t : T α) (c : Bool) (n : Nat), size t < fu
 
 /-- `qtreetbl_putobj`: inserting into a valid tree gives a valid tree (root blackened) -/
 theorem put_llrb (t : T α) (h : LLRB t) :
-    ∃ t' added, put cmp key new onDup (size t + 1) t = .ok (t', added) ∧ LLRB (blacken t') := by
+    ∃ t' added, put cmp key k mk onDup (size t + 1) t = .ok (t', added) ∧ LLRB (blacken t') := by
   obtain ⟨n, hb⟩ := h
-  obtain ⟨t', added, h1, h2⟩ := put_post cmp key new onDup (size t + 1) t false n (by omega) hb
+  obtain ⟨t', added, h1, h2⟩ := put_post cmp key k mk onDup (size t + 1) t false n (by omega) hb
   refine ⟨t', added, h1, ?_⟩
   cases h2 with
-  | blackStays _ _ hb2 => exact ⟨_, hb2.blacken_black⟩
+  | blackStays _ hb2 => exact ⟨_, hb2.blacken_black⟩
   | fromNil _ hb2 => exact ⟨_, hb2.blacken_red⟩
   | fromFour _ hb2 => exact ⟨_, hb2.blacken_red⟩
 
